@@ -551,6 +551,7 @@ int32_t pstm_read_unsigned_bin(pstm_int *a, const unsigned char *buf, psSize_t l
     {
         if (pstm_grow(a, a->used) != PSTM_OKAY)
         {
+            a->used = 0; /* do not leave used > alloc behind */
             return PSTM_MEM;
         }
     }
@@ -908,16 +909,17 @@ int32_t pstm_2expt(pstm_int *a, int16_t b)
         return PS_LIMIT_FAIL;
     }
 
-    /* set the used count of where the bit will go */
-    a->used = z + 1;
-
-    if (a->used > a->alloc)
+    if (z + 1 > a->alloc)
     {
-        if (pstm_grow(a, a->used) != PSTM_OKAY)
+        if (pstm_grow(a, z + 1) != PSTM_OKAY)
         {
             return PS_MEM_FAIL;
         }
     }
+
+    /* set the used count of where the bit will go (only once the digits
+       exist: a failed grow must not leave used > alloc behind) */
+    a->used = z + 1;
 
     /* put the single bit in its place */
     a->dp[z] = ((pstm_digit) 1) << (b % DIGIT_BIT);
